@@ -132,6 +132,18 @@ def random_calls(r, n, with_eval=True):
         i = r.randrange(0, len(calls) + 1)
         j = r.randrange(i, len(calls) + 1)
         calls = calls[:i] + [first] + calls[i:j] + [later] + calls[j:]
+    if r.random() < 0.35:
+        # a story: list_names stops inside brackets (abandoned after k names, a text with an unclosed bracket, an illegal character
+        # inside a bracket, or a failed parse there); the next call is given a text in which a line break matters
+        a = r.choice([{'op': 'names_partial', 'src': 'f(a, b)', 'k': 1}, {'op': 'names_partial', 'src': 'g([x, y],\n z)', 'k': 2}, {'op': 'names', 'src': 'f(1, [2,'},
+                      {'op': 'names', 'src': 'push(items, "abc'}, {'op': 'names', 'src': 'items[price $ 2]'}, {'op': 'parse', 'src': 'max(1 2)'},
+                      {'op': 'names_partial', 'src': 'a = [p,\nq,\nr]\nb', 'k': 2}, {'op': 'names', 'src': 'x = [1,\n2]\ny = (3'}])
+        b_src, b_kind = r.choice([('1 +\n2', 'syntax'), ('total =\n5', 'syntax'), ('[1, 2] |\nlen', 'syntax'), ('x = [1, 2]\nlen(x)', 'valid'), ('a = 1\n-2', 'valid'),
+                                  ('p = 1\nq = 2\np q', 'syntax'), ('f(a)\nb', 'runtime')])
+        first = dict(a, kind='valid')
+        second = {'op': r.choice(['parse', 'eval'] if with_eval else ['parse']), 'src': b_src, 'kind': b_kind, 'max': None, 'n': 0, 'k': 0}
+        i = r.randrange(0, len(calls) + 1)
+        calls = calls[:i] + [first, second] + calls[i:]
     return calls
 
 
